@@ -7,7 +7,8 @@ Five case kinds:
   styles - sequences of TableStyle factory calls and border customisations on the real objects; the
            border fields of every created style compared with the Lean heap model
   hist   - sequences (2-6) of command lines on ONE default-config application vs fresh applications
-           (status, both streams, handler arguments), in the same process.  Every handler shows, in what it writes, the
+           (status, both streams, handler arguments, the I/O state every handler finds and its probe lines as they
+           reach the streams - also compared with the Lean model of the run's I/O, Model/RunIO.lean), in the same process.  Every handler shows, in what it writes, the
            state of the I/O object it was given (tagged text with predefined and private tags, lines at every verbosity,
            both streams, the indentation); the handler of the `tweak` command CHANGES the I/O objects it was given through
            their public setters (formatter styles added / a predefined one restyled, another formatter, verbosity, quiet,
@@ -37,6 +38,8 @@ REQUIRED_THEOREMS = ["Clikit.Props.C17." + n for n in (
     "app_run_restores_state", "app_run_keeps_configured", "app_run_stateless", "app_history_results",
     "app_run_history_independent", "app_reused_eq_fresh", "d21_protocol_history_dependent",
     "app_io_of_tokens", "app_io_history_independent",
+    # the I/O objects of a run - formatters with their style registries, outputs - created per run (Model/RunIO.lean)
+    "io_state_fresh_per_run", "tweaks_do_not_leak", "world_cache_unread", "cached_formatter_leaks",
     # renderings and indentation scopes on one I/O whose outputs may be ONE object (Model/IndentShared.lean)
     "indent_restores_shared", "indent_enter_leave", "render_history_restores", "render_history_indentation_kept",
     "render_independent_of_history", "render_twice_same", "late_snapshot_same_when_distinct",
@@ -71,6 +74,20 @@ LEVEL_TEXT = ("How HelpResolver.create_resolved_command restores the leniency it
               "with their arguments, the I/O configuration every handler finds on entry (app_io_history_independent: decided by the "
               "tokens of that line alone, whatever earlier runs and their handlers did to THEIR I/O), and the "
               "_lenient_args_parsing of every command's config after every run. "
+              "The I/O OBJECTS of a run are modelled (Model/RunIO.lean): create_io builds, per run, formatter objects whose style "
+              "registry is a COPY of the configuration's style set on top of pastel's own styles (one object for both outputs under "
+              "--ansi / --no-ansi, else one per output), two outputs (formatter object, _format_output, verbosity, quiet, "
+              "indentation) and the interaction flag; a handler is ANY function of that state; what a tagged line shows is decided "
+              "by the state at that moment (nothing / indentation, tag literal / removed / ANSI). What outlives a run is the "
+              "configuration's style set only. Proved for every application, history and handler assignment: the handler of every run "
+              "finds the state create_io builds from the style set and the tokens of THAT line (io_state_fresh_per_run), every run "
+              "shows and finds what it does on the application as built and the style set is afterwards what it was "
+              "(tweaks_do_not_leak); with ONE formatter object per configuration - the protocol of the seeded change C17-8 - a style "
+              "added in run 1 is provably registered in run 2 (cached_formatter_leaks). Tied by c17.app_hist: per handler call the "
+              "I/O state found (per output: formatter class, forced, the WHOLE registry in order, _format_output, verbosity, quiet, "
+              "indentation; whether both outputs hold one formatter object; interaction) and 16 probe lines as they reached the "
+              "streams after the handler's own changes (written or not, indentation, literal / tag removed / ANSI, the look "
+              "registered), and the configuration's style set after every run, all compared with the real objects. "
               "Renderings on one I/O (Model/IndentShared.lean): the outputs of an I/O are OBJECTS and both channels may be one "
               "object, which every scope of the I/O then lists twice. Proved for every list of outputs (repetitions included), "
               "every history of renderings and nested scopes, left normally or by exceptions: the indentation of every output "
@@ -84,14 +101,24 @@ LEVEL_NOTE = ("Trusted: Lean kernel + standard axioms; tools/genparts/c17.py (AS
               "state would be invisible to the theorems and is looked for by the history runs); harness. Render-twice "
               "idempotence is a comparison, not a theorem. Model/AppState.lean (the state-threading re-statement of the resolver "
               "loops is proved equal to the originals; WHICH state the real objects keep is the modelling decision, sampled by "
-              "c17.app_hist and by the reused-vs-fresh runs).")
+              "c17.app_hist and by the reused-vs-fresh runs). Model/RunIO.lean: that create_io stores nothing of the I/O it "
+              "builds (FmtProto.perRun, keysOf) is read from the source by hand; tools/genparts/c09.py matches the text of the formatter "
+              "selection of create_io (constructor calls `PlainFormatter(style_set)` / `AnsiFormatter(style_set[, True])` in every "
+              "branch, `io = self.io_class(Input(..), Output(.., output_formatter), Output(.., error_formatter))`) and refuses to "
+              "regenerate Gen/C09.lean when it differs (tie A note); beyond that it is what the comparison of the I/O "
+              "state found by every handler with the real objects tests (a cached formatter object shows as a registry / "
+              "shared-object difference in the next run). The protocol of cached_formatter_leaks (FmtProto.cachedPerConfig; "
+              "c17.app_hist answers it when the request carries io.fmt_proto = \"cached\", which no case of this module does) was "
+              "run once against the seeded checkout C17-8: it predicted the I/O state found and the probe lines of all 60 of 60 "
+              "tweak histories tried, the per-run protocol of none.")
 RULE = ("proto: 3 settings x inner ok/raises (exhaustive); styles: all op sequences of length <= 3 (quick) / 4 (thorough) over "
         "4 factories + customisations, plus random to length 8; hist: generated trees + a fixed probe command, sequences of "
         "2-6 lines from {valid, too many arguments, unknown option, unconvertible value, help in both spellings (also "
         "combined with a failing value), version, unknown command, `tweak <what>...` whose handler changes the I/O objects "
         "it was given (formatter styles, formatter, verbosity, quiet, interaction, indentation, terminal dimensions), lines "
-        "with --ansi / -v / -vv / -q}, every handler writing tagged and verbosity-flagged lines to both streams; each "
-        "history is also run through the stateful composed model; "
+        "with --ansi / -v / -vv / -q}, every handler writing tagged and verbosity-flagged lines to both streams and recording "
+        "the I/O state it finds and 16 probe lines (predefined / private / unknown tags, both channels, every flag) as they reach "
+        "the streams; each history is also run through the stateful composed model with the I/O of every run; "
         "twice: tables x 4 styles, help pages, traces; "
         "render: 6 constructions of the I/O (BufferedIO, two outputs on two streams / on one stream, ONE Output object for both "
         "channels, section I/O, one section output for both channels) x 13 components (tables, paragraphs, name/version, help "
@@ -110,6 +137,10 @@ TRUSTED_BASE = [
     "output.py); a rendering is taken to leave the indentation as it found it (compared after every rendering)",
     "lean/Clikit/Model/AppState.lean: the stateful composed application model (leniency settings per command, scratch state "
     "per installed parser object, the help resolver's toggle) on top of Model/App.lean; tied by c17.app_hist on every history",
+    "lean/Clikit/Model/RunIO.lean: the I/O objects of a run (hand-written from DefaultApplicationConfig.create_io, "
+    "AnsiFormatter / PlainFormatter.__init__ and add_style, Output, IO); harness/props/c17.py `_tweak_ops`: the `tweak` "
+    "handler's setter calls restated as model operations (styles from ONE table); a style's look is opaque text (the colours "
+    "and options StyleConverter / pastel make of it), read from the formatter's pastel registry (`_formatter._styles`)",
 ]
 ASSUMPTIONS = [
     "hidden state other than the modelled one is searched for by differential histories, not excluded by proof",
@@ -131,10 +162,15 @@ ASSUMPTIONS = [
     "`lenient` command (configured True) and the shared parser object (`shared_parser`) are modelled, nothing is excluded; "
     "the error class of a failing run and the help page shown are not compared here (c09.app_run / C13 do), the scratch "
     "dictionaries of the real parser object are not read (results only, as C05)",
-    "handlers that change the I/O objects they were given: the model has no I/O state that outlives a run (create_io builds "
-    "the I/O of a run from its tokens; compared on entry of every handler), the formatter's style set is not modelled - that "
-    "nothing a handler did to its I/O shows in a later run is judged by the oracle (reused vs fresh output), not proved; "
-    "what a handler does to objects that are NOT per run (the application's config, its style set) is outside",
+    "handlers that change the I/O objects they were given: modelled (Model/RunIO.lean) are the formatter objects with "
+    "their style registries, which output holds which formatter object, _format_output, verbosity, quiet and indentation "
+    "per output, the interaction flag; in the THEOREMS a handler is any function of that state, in the comparison it is the "
+    "`tweak` handler's table. Not modelled: the terminal dimensions (`narrow`), the streams (buffered, no ANSI support, in "
+    "every run), what the application itself writes with the run's formatter (help pages, error reports), a look's ANSI "
+    "codes (the look registered is compared, and that the line carries codes). That create_io keeps no reference to the "
+    "objects it builds is a reading of the source (FmtProto.perRun), tested by the comparison on every handler call; what "
+    "a handler does to objects that are NOT per run (application.config, its style set: `config.style_set.add` in a "
+    "handler changes every later run by design) is outside - the handlers of the theorems get the I/O state only",
 ]
 BATCH = 400
 
@@ -382,23 +418,103 @@ def _show_io(io):
     io.write_line("width %d, interactive %s" % (io.terminal_dimensions.width, io.is_interactive()))
 
 
+def _tweak_styles():
+    """the styles the `tweak` handler registers (ONE table for the handler and for the model's description of it)"""
+    from clikit.api.formatter import Style
+    return {"brand_out": Style("brand").fg("magenta").bold(), "brand_err": Style("brand").fg("magenta"),
+            "hl": Style("hl").bg("yellow"), "info": Style("info").fg("red").underlined(),
+            "error": Style("error").fg("black").bg("white"), "f_brand": Style("brand").fg("cyan"),
+            "f_info": Style("info").fg("blue")}
+
+
+def _look(ps):
+    """what a registered (pastel) style looks like: the SGR codes of its colours and options"""
+    return "fg=%s;bg=%s;opt=%s" % (ps.foreground, ps.background, "+".join(sorted(str(o) for o in ps.options)))
+
+
+def _look_of(style):
+    """the look a clikit Style gets when a formatter registers it (`add_style`: StyleConverter.convert, then
+    Pastel.add_style builds a pastel style from foreground, background and options)"""
+    import pastel.style
+    from clikit.adapter.style_converter import StyleConverter
+    c = StyleConverter.convert(style)
+    return _look(pastel.style.Style(c.foreground, c.background, c.options))
+
+
+def _registry(formatter):
+    """the registry of a formatter's own Pastel object, in registration order"""
+    return [[t, _look(ps)] for t, ps in formatter._formatter._styles.items()]
+
+
+def _io_found(io):
+    """the state of the I/O objects a handler was given (Model/RunIO.lean `IOState`): per output the formatter (class,
+    forced, registry), `_format_output`, verbosity, quiet, indentation; whether both outputs hold ONE formatter object"""
+    from clikit.formatter.ansi_formatter import AnsiFormatter
+
+    def out(o):
+        f = o.formatter
+        return {"ansi": isinstance(f, AnsiFormatter), "forced": bool(f.force_ansi()), "styles": _registry(f),
+                "format_output": bool(o.supports_ansi()), "verbosity": o.verbosity, "quiet": bool(o.is_quiet()),
+                "indent": o._indent}
+    return {"out": out(io.output), "err": out(io.error_output),
+            "same_formatter": io.output.formatter is io.error_output.formatter, "interactive": bool(io.is_interactive())}
+
+
+# probe lines `<tag>tag</tag>` every recording handler writes: channel, tag, flag (0 = none)
+PROBES = [["out", "info", 0], ["out", "comment", 0], ["out", "brand", 0], ["out", "hl", 0], ["out", "b", 0],
+          ["out", "error", 0], ["out", "nosuchtag", 0], ["err", "error", 0], ["err", "brand", 0], ["err", "info", 0],
+          ["err", "hl", 0], ["out", "info", 1], ["out", "brand", 2], ["out", "c1", 4], ["err", "brand", 1],
+          ["err", "error", 4]]
+
+
+def _probe(io):
+    """writes the probe lines and reads back what reached the stream: nothing / indentation and whether the tag stayed
+    (literal), was removed (stripped) or was replaced by ANSI codes; the look is the one in the formatter's registry"""
+    shown = []
+    for chan, tag, need in PROBES:
+        o = io.output if chan == "out" else io.error_output
+        n0 = len(o.stream.fetch())
+        o.write_line("<%s>%s</%s>" % (tag, tag, tag), need or None)
+        text = o.stream.fetch()[n0:]
+        rec = {"on": chan, "tag": tag, "need": need, "written": text != "", "indent": None, "how": "", "look": None}
+        if text != "":
+            body = text[:-1] if text.endswith("\n") else text
+            rest = body.lstrip(" ")
+            rec["indent"] = len(body) - len(rest)
+            if rest == "<%s>%s</%s>" % (tag, tag, tag):
+                rec["how"] = "literal"
+            elif rest == tag:
+                rec["how"] = "stripped"
+            elif rest.startswith("\x1b[") and rest.endswith(tag + "\x1b[0m"):
+                rec["how"] = "ansi"
+            else:
+                rec["how"] = "other:" + rest
+            ps = o.formatter._formatter._styles.get(tag)
+            rec["look"] = _look(ps) if ps is not None and rec["how"] != "literal" else None
+        shown.append(rec)
+    return shown
+
+
 class _H(object):
     def __init__(self, path):
         self.path = path
 
     def handle(self, args, io, command):
         seen = _io_seen(io)
+        found = _io_found(io)
         # a handler reads its arguments every way the API offers (set values, full listings with defaults, by name)
         CALLS.append([list(self.path), sorted((k, repr(v)) for k, v in args.arguments(False).items()),
                       sorted((k, repr(v)) for k, v in args.options(False).items()),
                       sorted((k, repr(v)) for k, v in args.arguments().items()),
                       sorted((k, repr(v)) for k, v in args.options().items()),
                       sorted((k, repr(args.option(k)), args.is_option_set(k)) for k in args.options())])
-        # appended for the composed model (c17.app_hist): the SET arguments / options in the canonical encoding
+        # appended for the composed model (c17.app_hist): the SET arguments / options in the canonical encoding, the
+        # I/O state found on entry and (below) the probe lines as they reached the streams
         CALLS[-1].append({"args_set": sorted([[k, pc.enc(v)] for k, v in args.arguments(False).items()]),
                           "opts_set": sorted([[k, pc.enc(v)] for k, v in args.options(False).items()]),
-                          "io": seen})
+                          "io": seen, "found": found, "shown": None})
         self.before(args, io)
+        CALLS[-1][-1]["shown"] = _probe(io)
         io.write_line("ran " + " ".join(self.path))
         _show_io(io)
         return 0
@@ -409,29 +525,30 @@ class _H(object):
 
 class _Tweak(_H):
     """a handler that CHANGES the I/O objects it was given, through their public setters, before it writes: the I/O of
-    a run is created for that run, so nothing of this may show in a later run"""
+    a run is created for that run, so nothing of this may show in a later run.  `_tweak_ops` is the same in the
+    operations of the model."""
 
     def before(self, args, io):
-        from clikit.api.formatter import Style
         from clikit.api.formatter.style_set import StyleSet
         from clikit.api.io.flags import DEBUG
         from clikit.formatter.ansi_formatter import AnsiFormatter
         from clikit.formatter.plain_formatter import PlainFormatter
         from clikit.ui.rectangle import Rectangle
+        st = _tweak_styles()
         for what in args.argument("what") or []:
             if what == "style":
                 # private tags, on the formatter of each output
-                io.formatter.add_style(Style("brand").fg("magenta").bold())
-                io.error_output.formatter.add_style(Style("brand").fg("magenta"))
-                io.output.formatter.add_style(Style("hl").bg("yellow"))
+                io.formatter.add_style(st["brand_out"])
+                io.error_output.formatter.add_style(st["brand_err"])
+                io.output.formatter.add_style(st["hl"])
             elif what == "restyle":
                 # a predefined tag looks different in this run
-                io.formatter.add_style(Style("info").fg("red").underlined())
-                io.error_output.formatter.add_style(Style("error").fg("black").bg("white"))
+                io.formatter.add_style(st["info"])
+                io.error_output.formatter.add_style(st["error"])
             elif what == "formatter":
                 ss = StyleSet()
-                ss.add(Style("brand").fg("cyan"))
-                ss.add(Style("info").fg("blue"))
+                ss.add(st["f_brand"])
+                ss.add(st["f_info"])
                 io.set_formatter(AnsiFormatter(ss, True) if isinstance(io.formatter, PlainFormatter) else PlainFormatter(ss))
             elif what == "verbose":
                 io.set_verbosity(DEBUG)
@@ -446,6 +563,33 @@ class _Tweak(_H):
                 io.error_output.increment_indent(2)
             elif what == "narrow":
                 io.set_terminal_dimensions(Rectangle(33, 7))
+
+
+def _tweak_ops():
+    """what `_Tweak.before` does per value of `what`, in the operations of Model/RunIO.lean (`HOp`)"""
+    from clikit.api.io.flags import DEBUG
+    st = dict((k, _look_of(v)) for k, v in _tweak_styles().items())
+    ss = [["brand", st["f_brand"]], ["info", st["f_info"]]]
+    return [
+        ["style", [{"op": "add_style", "on": "out", "tag": "brand", "look": st["brand_out"]},
+                   {"op": "add_style", "on": "err", "tag": "brand", "look": st["brand_err"]},
+                   {"op": "add_style", "on": "out", "tag": "hl", "look": st["hl"]}]],
+        ["restyle", [{"op": "add_style", "on": "out", "tag": "info", "look": st["info"]},
+                     {"op": "add_style", "on": "err", "tag": "error", "look": st["error"]}]],
+        ["formatter", [{"op": "set_formatter", "if_plain": {"ansi": True, "forced": True, "ss": ss},
+                        "if_ansi": {"ansi": False, "forced": False, "ss": ss}}]],
+        ["verbose", [{"op": "set_verbosity", "n": DEBUG}]],
+        ["silent", [{"op": "set_quiet", "on": "err", "b": True}]],
+        ["quiet", [{"op": "set_quiet", "on": None, "b": True}]],
+        ["batch", [{"op": "set_interactive", "b": False}]],
+        ["indent", [{"op": "indent", "on": None, "inc": False, "n": 3}, {"op": "indent", "on": "err", "inc": True, "n": 2}]],
+        ["narrow", []],      # the terminal dimensions are not modelled
+    ]
+
+
+def _style_set_of(app):
+    """the configuration's style set, as the formatters would register it"""
+    return [[t, _look_of(st)] for t, st in app.config.style_set.styles.items()]
 
 
 class _Counting(object):
@@ -565,7 +709,7 @@ def _hist_probed(case):
         probe.clear()
         r = _run(app, line)
         runs.append({"status": r["status"], "out": r["out"], "calls": r["calls"], "selected": probe.get("selected"),
-                     "handled": probe.get("handled"), "len": _state_of(app)[0]})
+                     "handled": probe.get("handled"), "len": _state_of(app)[0], "style_set": _style_set_of(app)})
     return {"configured": configured, "runs": runs}
 
 
@@ -613,6 +757,11 @@ def _hist_view(obs):
                      "selected": {"ok": r["selected"]} if r["selected"] is not None else "err",
                      # the I/O configuration every recording handler found on entry (reused and probed application)
                      "io_seen": [c[-1]["io"] for c in r0["calls"]], "io_seen_probed": [c[-1]["io"] for c in r["calls"]],
+                     # the I/O state found on entry and the probe lines as they reached the streams (Model/RunIO.lean)
+                     "io_calls": [{"found": c[-1]["found"], "shown": c[-1]["shown"]} for c in r0["calls"]],
+                     "io_calls_probed": [{"found": c[-1]["found"], "shown": c[-1]["shown"]} for c in r["calls"]],
+                     # the configuration's style set after the run
+                     "style_set": r["style_set"],
                      "len": r["len"], "restored": r["len"] == t["configured"]})
     return {"runs": runs}
 
@@ -1001,8 +1150,14 @@ def _hist_requests(case):
     nodes = ac.extract_app(app)
     raw, parsers = _state_of(app)
     ints, floats = pc.conv_tables(ac.all_texts(nodes, [t for l in case["lines"] for t in l]))
+    # the I/O side (Model/RunIO.lean): the styles pastel registers itself and the configuration's style set read off
+    # the REAL objects, the streams `_run` hands to run() (buffered: no ANSI support), the `tweak` handler's table
+    import pastel
+    io = {"pastel": [[t, _look(ps)] for t, ps in pastel.Pastel()._styles.items()], "style_set": _style_set_of(app),
+          "streams": [False, False], "tweaks": _tweak_ops(), "tweak_path": ["tweak"],
+          "probe": [{"op": "write", "on": c, "tag": t, "need": n} for c, t, n in PROBES]}
     return [{"m": "c17.app_hist", "commands": nodes, "lines": case["lines"], "ints": ints, "floats": floats,
-             "raw": raw, "parsers": parsers}]
+             "raw": raw, "parsers": parsers, "io": io}]
 
 
 def _sel(o):
@@ -1024,6 +1179,9 @@ def _hist_model_view(answer):
                      # create_io of THIS line, for every invoked handler that records (`counter` does not)
                      "io_seen": [_run_io(r["io"]) for x in inv if x["path"] != ["counter"]],
                      "io_seen_probed": [_run_io(r["io"]) for x in inv if x["path"] != ["counter"]],
+                     "io_calls": [c for x, c in zip(inv, r["io_calls"]) if x["path"] != ["counter"]],
+                     "io_calls_probed": [c for x, c in zip(inv, r["io_calls"]) if x["path"] != ["counter"]],
+                     "style_set": r["style_set"],
                      "len": r["len"], "restored": r["restored"]})
     return {"runs": runs}
 
